@@ -28,8 +28,9 @@ def cases(tier, seed):
     for n in ((3, 4) if q else (3, 4, 5)):
         add(name='distance_bin/n%d' % n, fn='distance_bin', kind='bin', n=n, weight=3 ** n)
         add(name='reachdist/n%d' % n, fn='reachdist', kind='bin', n=n, weight=3 ** n, shard_depth=6 if n >= 4 else None)
-        add(name='efficiency_bin/n%d' % n, fn='efficiency_bin', kind='bin', n=n, weight=3 ** n)
-        add(name='charpath/n%d' % n, fn='charpath', kind='bin', n=n, weight=3 ** n, shard_depth=6 if n >= 4 else None)
+        if n <= 4:      # at n = 5 the mean-inverse-distance identity over symbolic bits is beyond z3 (unknown, measured)
+            add(name='efficiency_bin/n%d' % n, fn='efficiency_bin', kind='bin', n=n, weight=3 ** n)
+            add(name='charpath/n%d' % n, fn='charpath', kind='bin', n=n, weight=3 ** n, shard_depth=6 if n >= 4 else None)
     add(name='breadthdist/n3', fn='breadthdist', kind='bin', n=3, weight=60, shard_depth=4)
     add(name='breadthdist/n4und', fn='breadthdist', kind='bin', n=4, undirected=True, weight=60, shard_depth=4)
     if not q: add(name='breadthdist/n4', fn='breadthdist', kind='bin', n=4, weight=4000, shard_depth=8)
